@@ -48,6 +48,8 @@ type World struct {
 	fieldFuncs    map[string]map[*ssa.Function]bool
 	fieldFuncsBad map[string]bool
 	envField      string
+	nilFuncVars   map[*ssa.Global]bool
+	initTime      map[*ssa.Function]int
 	baseMem       map[string]AV
 }
 
@@ -330,6 +332,12 @@ func (w *World) refineTableCalls(g *callgraph.Graph) {
 			}
 			if _, isB := c.Value.(*ssa.Builtin); isB {
 				continue
+			}
+			// a call through a hook variable that is never assigned: no callee
+			if ld, ok := c.Value.(*ssa.UnOp); ok {
+				if gv, ok := ld.X.(*ssa.Global); ok && w.nilFuncVar(gv) {
+					allowed[e.Site] = map[*ssa.Function]bool{}
+				}
 			}
 			if tg := tableOrigin(c.Value, 0); tg != nil && w.readOnlyOutsideInit(tg) {
 				if fs := w.tableFuncs(tg); fs != nil {
